@@ -214,10 +214,9 @@ func genObjElem(r *vx.Rng) elem {
 	}
 	switch r.Intn(4) {
 	case 0:
-		ty, k := pickTy()
-		raw := objBytes(r, td, ty, k)
-		e := getTypeElem(td, raw)
-		return e
+		// writes nothing: it peeks at the bytes of the next step (or at the end of the input). Bytes of its own would stay
+		// unread and shift every later step, and a shifted count in front of zero-size items is the D02d pattern
+		return getTypeElem(td, nil)
 	case 1:
 		ty, k := pickTy()
 		return objectElem(td, h, objBytes(r, td, ty, k), ty <= 2)
